@@ -48,6 +48,9 @@ struct Cfg {
     prefill: usize,
     /// (step, count): see pubsub.rs
     storm: Option<(usize, usize)>,
+    /// (step, count): `count` requestor streams fail between two polls (a client with many streams loses its
+    /// connection) while a few healthy requestors have a request ready; the router is then left alone
+    err_storm: Option<(usize, usize)>,
 }
 
 fn plan(profile: u8) -> SinkPlan {
@@ -96,6 +99,7 @@ fn gen_cfg(rng: &mut Rng, family: &str) -> Cfg {
         repliers_leave: matches!(family, "c10" | "c08" | "c09" | "c16"),
         profiles,
         prefill: if family == "burst" && rng.pct(60) { rng.usize(n_reqs + n_reps + 1) } else { 0 },
+        err_storm: if family == "burst" && rng.pct(40) { Some((rng.usize(steps), rng.range(1, 40) as usize)) } else { None },
         storm: if family == "burst" && rng.pct(70) {
             let total = n_reqs + n_reps;
             let count = if rng.pct(50) { rng.range(1, total as u64) as usize } else { total - rng.usize(total.min(6)) };
@@ -698,7 +702,7 @@ impl Sim {
                 if !st.queue.is_empty() {
                     let never = st.first_touch.is_none();
                     self.findings.push(Finding {
-                        class: if never { "abandoned" } else { "sleep" },
+                        class: if never { "abandoned" } else if at.contains("error storm") { "starved-after-failure" } else { "sleep" },
                         sig: format!("reqrep/sleep/unread-requests{}", if never { "/registration-unnoticed" } else { "" }),
                         detail: format!("{}: router parked with no wake-up outstanding while {} has {} frame(s) ready{}", at, pe.label, st.queue.len(), if never { " (registration never noticed)" } else { "" }),
                     });
@@ -708,7 +712,7 @@ impl Sim {
                 let st = w.peers[r].stream.as_ref().unwrap();
                 if !st.queue.is_empty() {
                     self.findings.push(Finding {
-                        class: "sleep",
+                        class: if at.contains("error storm") { "starved-after-failure" } else { "sleep" },
                         sig: "reqrep/sleep/unread-replies".into(),
                         detail: format!("{}: router parked with no wake-up outstanding while bound replier {} has {} reply frame(s) ready", at, w.peers[r].label, st.queue.len()),
                     });
@@ -1239,6 +1243,40 @@ pub fn run(seed: u64, family: &str, keep_dump: bool) -> RunResult {
             sim.close();
             continue;
         }
+        if let Some((at, count)) = cfg.err_storm {
+            if at == step && !sim.closed {
+                let mut live: Vec<usize> = {
+                    let w = lock(&sh);
+                    sim.reqs.iter().copied().filter(|p| w.peers[*p].reg_sent.is_some() && !w.peers[*p].stream.as_ref().unwrap().ended).collect()
+                };
+                lock(&sh).act(format!("error storm: up to {} requestor streams fail back to back", count));
+                let healthy_asks = sim.rng.range(1, 8) as usize;
+                let mut failed = 0;
+                while failed < count && live.len() > healthy_asks {
+                    let k = sim.rng.usize(live.len());
+                    let p = live.swap_remove(k);
+                    if sim.rng.pct(30) {
+                        // several errors in a row from one stream before it ends
+                        for _ in 0..sim.rng.range(1, 9) {
+                            let wk = lock(&sh).enqueue(p, QItem::Err);
+                            sim.fire(wk);
+                        }
+                    }
+                    sim.leave(p, true);
+                    failed += 1;
+                }
+                for _ in 0..healthy_asks.min(live.len()) {
+                    let k = sim.rng.usize(live.len());
+                    let p = live.swap_remove(k);
+                    sim.request(p, "request", false);
+                }
+                if sim.settle("after error storm") && sim.alive {
+                    sim.quiescent_checks("quiescence after an error storm");
+                }
+                sim.end_settle();
+                continue;
+            }
+        }
         if let Some((at, count)) = cfg.storm {
             if at == step && !sim.closed {
                 let mut fresh: Vec<usize> = {
@@ -1490,7 +1528,7 @@ pub fn run(seed: u64, family: &str, keep_dump: bool) -> RunResult {
         "engine": "routersim/reqrep", "family": family, "seed": seed,
         "n_requestors": cfg.n_reqs, "n_repliers": cfg.n_reps, "requests": cfg.requests, "steps": cfg.steps,
         "spurious_polls": cfg.spurious, "close_at": cfg.close_at, "close_at_end": cfg.close_at_end,
-        "faults": cfg.faults, "hostile": cfg.hostile, "profiles": cfg.profiles, "registrations_queued_before_first_poll": cfg.prefill, "registration_storm_step_count": cfg.storm,
+        "faults": cfg.faults, "hostile": cfg.hostile, "profiles": cfg.profiles, "registrations_queued_before_first_poll": cfg.prefill, "registration_storm_step_count": cfg.storm, "error_storm_step_count": cfg.err_storm,
     });
     let dump = if keep_dump || !sim.findings.is_empty() {
         Some(dump_world(&w, 500))
